@@ -288,8 +288,10 @@ CLAIMED["C05"] = {
     "evaluated at the parameters (relative to C09 / C10 and the user's "
     "functions); the standard sampler's uncertainty sqrt(info/nlive) is "
     "reported as the sampler's value, no independent closed form is "
-    "claimed; the INS uncertainty (longdouble exponentials), the INS result "
-    "dictionary wiring are not under contract ('number of INS samples = "
+    "claimed; the INS uncertainty (longdouble exponentials) is not under "
+    "contract; the INS result dictionary wiring IS (evidence, error, "
+    "weights, samples, training / independent-set evidence, history are the "
+    "sampler's own values) ('number of INS samples = "
     "sum of level draws' IS: it is part of the loop invariant of "
     "ImportanceNestedSampler.nested_sampling_loop proved for C03 and "
     "included in this check); FlowSampler.run_* attribute wiring not under "
